@@ -22,6 +22,7 @@ import (
 	"runtime"
 	"runtime/pprof"
 	"sort"
+	"strconv"
 	"strings"
 	"sync"
 	"sync/atomic"
@@ -828,7 +829,12 @@ func main() {
 	type sc struct {
 		nodes, starts, depth int
 	}
-	scs := ev.Pick(r, []sc{{2, 3, 7}}, []sc{{2, 3, 9}, {3, 4, 7}})
+	scs := ev.Pick(r, []sc{{2, 3, 9}}, []sc{{2, 3, 9}, {3, 4, 7}})
+	if d, err := strconv.Atoi(os.Getenv("C18_DEPTH")); err == nil { // experimentation only
+		for i := range scs {
+			scs[i].depth = d
+		}
+	}
 	for _, s := range scs {
 		s := s
 		suffixDone = sync.Map{}
